@@ -244,6 +244,21 @@ pub struct Session {
 }
 
 impl Session {
+    /// Drops the `Sign` and returns whatever it sent to the bus on its way out (nothing, for a controller that only
+    /// talks when asked to).
+    pub fn finish(self) -> Vec<RefMsg> {
+        let Session { bus, sign, .. } = self;
+        {
+            let mut b = bus.borrow_mut();
+            b.log.clear();
+            b.model = None;
+            b.max_messages = usize::MAX;
+        }
+        let _ = catch(std::panic::AssertUnwindSafe(move || drop(sign)));
+        let b = bus.borrow();
+        b.log.iter().map(|(m, _)| m.clone()).collect()
+    }
+
     pub fn with_error_flavour(self, flavour: u8) -> Session {
         self.bus.borrow_mut().error_flavour = flavour;
         self
